@@ -28,7 +28,14 @@ var primTypes = []zed.Type{
 	zed.TypeBool, zed.TypeBytes, zed.TypeString, zed.TypeIP, zed.TypeNet, zed.TypeType, zed.TypeNull,
 }
 
-var fieldNames = []string{"a", "b", "c", "type", "a b", "é", "", "0", "_path", "x.y"}
+var fieldNames = []string{"a", "b", "c", "type", "a b", "é", "", "0", "_path", "x.y", "A", " a"}
+
+// enumSymbols: empty symbols in first, middle and last position, look-alikes,
+// multi-byte symbols, a long symbol.
+var enumSymbols = [][]string{
+	{"a"}, {"a", "b", "c"}, {"x y", "é"}, {""}, {"", "a"}, {"a", "", "b"}, {"a", ""},
+	{"a", "A", " a", "a "}, {"é", "日本語", ""}, {"b", "bb", "bbb", ""},
+}
 var typeNames = []string{"n", "m", "port", "n"} // "n" twice: frequently re-bound
 
 func (g *gen) pick(n int) int { return g.rng.Intn(n) }
@@ -50,6 +57,10 @@ func (g *gen) typ(zctx *zed.Context, depth int) zed.Type {
 			}
 			used[name] = true
 			fields = append(fields, zed.NewField(name, g.typ(zctx, depth-1)))
+		}
+		if !used[""] && g.pick(4) == 0 {
+			// a record whose last field name is empty
+			fields = append(fields, zed.NewField("", g.typ(zctx, depth-1)))
 		}
 		t, err := zctx.LookupTypeRecord(fields)
 		if err != nil {
@@ -79,8 +90,7 @@ func (g *gen) typ(zctx *zed.Context, depth int) zed.Type {
 		}
 		return zctx.LookupTypeUnion(types)
 	case 6:
-		syms := [][]string{{"a"}, {"a", "b", "c"}, {"x y", "é"}}[g.pick(3)]
-		return zctx.LookupTypeEnum(syms)
+		return zctx.LookupTypeEnum(enumSymbols[g.pick(len(enumSymbols))])
 	case 7:
 		return zctx.LookupTypeError(g.typ(zctx, depth-1))
 	default:
